@@ -283,6 +283,12 @@ class Gen:
             bs.append(("blt", self.pick(LIFETIMES)))
         if self.r.random() < 0.2:
             bs.append(("btrait", "Send", None))
+        if len(bs) > 1 and self.r.random() < 0.35:
+            # the bounds of a trait object come in any order (`dyn Send + Tr<T>`, `dyn 'a + Tr<T>`): the trait whose arguments mention a
+            # parameter need not be written first (seeded change C10i substituted only into the first trait bound)
+            self.r.shuffle(bs)
+            if bs[0][0] == "blt":          # a leading lifetime bound does not parse: `dyn 'a + Tr`
+                bs.append(bs.pop(0))
         return bs
 
     def args(self, d, params):
